@@ -57,6 +57,11 @@ pub fn journal(text: &[u8]) {
     s.active.store(true, Ordering::Relaxed);
     s.progress.fetch_add(1, Ordering::Relaxed);
 }
+/// Signal progress to the hang watchdog without changing the recorded case.
+pub fn tick() {
+    let i = my_slot();
+    JOURNAL[i].progress.fetch_add(1, Ordering::Relaxed);
+}
 pub fn journal_idle() {
     let i = my_slot();
     JOURNAL[i].active.store(false, Ordering::Relaxed);
